@@ -317,3 +317,19 @@ def real_loop_phase_shapes():
     c["mux-input-inactive"] = S(N("S", "Source", only=()), N("W1", "PSwitch", "S", phases=["a"], only=("iis",)), N("W2", "PSwitch", "S", only=()),
                                 N("M", "PMux", ["W1", "W2"], only=()), N("L", "ILoad", "M", only=()), phases=ph)
     return c
+
+
+def variants():
+    """Generic transformations of catalogue shapes that earlier seeded changes showed to matter: parents addressed by RAIL
+    name, and a deleted dummy component that leaves a hole in the node numbering before anything is analysed."""
+    c = {}
+    c["by-rail/chain"] = S(N("S", "Source", rail="VIN"), N("C", "Converter", "S", rail="R1"), N("G", "LinReg", "C", rail="R2"), N("L1", "PLoad", "G"),
+                           N("L2", "ILoad", "C"), address_by_rail=True)
+    c["by-rail/mux"] = S(N("S1", "Source", pol="nonneg", rail="A"), N("S2", "Source", rail="B"), N("W", "PSwitch", "S2", rail="SW"),
+                         N("M", "PMux", ["S1", "W"], rs_list=True, rail="SYS"), N("L", "PLoad", "M"), address_by_rail=True)
+    c["hole/chain"] = S(N("S", "Source"), N("X", "RLoss", "S", dummy=True, only=()), N("C", "Converter", "S"), N("L1", "PLoad", "C"), N("L2", "RLoad", "S"))
+    c["hole/two-src"] = S(N("S1", "Source"), N("X", "PLoad", "S1", dummy=True, only=()), N("S2", "Source"), N("G", "LinReg", "S2"), N("L2", "ILoad", "G"),
+                          N("L1", "ILoad", "S1"))
+    c["hole/mux"] = S(N("S1", "Source", pol="nonneg"), N("X", "ILoad", "S1", dummy=True, only=()), N("S2", "Source"),
+                      N("M", "PMux", ["S1", "S2"], rs_list=True), N("L", "PLoad", "M"))
+    return c
